@@ -508,10 +508,28 @@ struct Registry {
   std::map<std::string, OpFn> lib;    // library readers and writers
 };
 
+// shared stream for the back-to-back (sequence) operations
+inline IWriter& SharedWriter() { static IWriter w; return w; }
+inline IReader& SharedReader() { static IReader r; return r; }
+
 template <typename T>
 std::string CoreOps(const std::vector<Sx>& a) {
   const std::string& op = a.at(0).a;
   try {
+    if (op == "wput") {          // append one value to the shared stream
+      auto h = std::make_unique<Holder<T>>();
+      Build(h->v, a.at(2));
+      nop::Serializer<IWriter*> ser{&SharedWriter()};
+      auto st = ser.Write(h->v);
+      return "st=" + std::to_string(Code(st)) + " end=" + std::to_string(SharedWriter().out.size());
+    } else if (op == "rget") {   // read the next value from the shared stream
+      nop::Deserializer<IReader*> des{&SharedReader()};
+      auto h = std::make_unique<Holder<T>>();
+      auto st = des.Read(&h->v);
+      if (!st) return "st=" + std::to_string(Code(st));
+      std::string dump; Dump(dump, h->v);
+      return "st=0 val=" + dump + " end=" + std::to_string(SharedReader().index);
+    }
     if (op == "enc") {
       auto h = std::make_unique<Holder<T>>();
       Build(h->v, a.at(2));
